@@ -462,7 +462,7 @@ pub fn run(ctx: &mut Ctx, rep: &mut Report) {
                         }
                         for arm in cfgs::FORCED {
                             for mode in 0..2 {
-                                let cfg = c02::Config { seq: seq.clone(), matrix: matrix.clone(), threshold: t, block, arm, origin: format!("c06 scan L={} M={}", len, mdig.len()) };
+                                let cfg = c02::Config { seq: seq.clone(), matrix: matrix.clone(), threshold: t, block, arm, origin: format!("c06 scan L={} M={}", len, mdig.len()), pre_wrap: if block == 3 { Some(1) } else { None } };
                                 let module = if mode == 0 { "C02" } else { "C03" };
                                 if !crumb(|| wrap(module, cfg.json())) {
                                     continue;
